@@ -2,6 +2,7 @@
 from __future__ import annotations
 
 import copy
+import itertools
 import json
 import os
 import subprocess
@@ -263,6 +264,11 @@ def gen_cases(ctx, inv):
                     a["data"] = over.get("data", None)
                 c = {"em": "ctor", "fn": fn, "unified": unified, "args": a}
                 add(c, ctor_intent(fn, a), fam)
+                if "progress_token" not in a and next(_DIRECT_TICK) % 3 == 0:
+                    # the same message built by calling the message CLASS with its fields and WITHOUT `jsonrpc=` (the member
+                    # has a default in every class): what leaves a transport still says "jsonrpc": "2.0"
+                    add({"em": "ctor", "fn": fn, "unified": unified, "args": a, "direct": True}, ctor_intent(fn, a),
+                        fam + ":class-called-without-jsonrpc")
                 return c
             # every payload (rotating ids / methods), every id (three payload shapes), every method
             if "params" in names:
@@ -587,6 +593,7 @@ def fill_intent(intent, wire_view):
     return out
 
 
+_DIRECT_TICK = itertools.count()
 DRIVEN = {"stdio-transport", "stdiotext-transport", "http-transport", "sse-transport"}
 
 
